@@ -905,7 +905,8 @@ impl<'input, T: Input> Scanner<'input, T> {
             }
         }
 
-        if need_whitespace {
+        // The end of the input also terminates the indicator.
+        if need_whitespace && !self.input.next_is_z() {
             Err(ScanError::new_str(self.mark(), "expected whitespace"))
         } else {
             Ok(())
